@@ -18,7 +18,7 @@ FUNCTIONS = ['pymeeus/Epoch.py:LEAP_TABLE', 'pymeeus/Epoch.py:Epoch.leap_seconds
              'pymeeus/Epoch.py:Epoch.set', 'pymeeus/Epoch.py:Epoch.get_date', 'pymeeus/Epoch.py:Epoch.tt2ut',
              'pymeeus/Epoch.py:Epoch.get_doy', 'pymeeus/Epoch.py:Epoch.doy2date', 'pymeeus/Epoch.py:Epoch.is_leap',
              'pymeeus/Epoch.py:Epoch._check_values', 'pymeeus/Epoch.py:DAY2SEC', 'pymeeus/Epoch.py:DAY2MIN',
-             'pymeeus/Epoch.py:DAY2HOURS', 'pymeeus/base.py:iint']
+             'pymeeus/Epoch.py:DAY2HOURS', 'pymeeus/base.py:iint', 'pymeeus/Epoch.py:Epoch.utc2local']
 
 MANIFEST = dict(
     text=("Lean 4 theorems (Props/C10.lean) about the exact-arithmetic model (templates/EpochCal.lean) of "
@@ -31,19 +31,24 @@ MANIFEST = dict(
           "1972..9998 and every time of day, incl. the seconds around a leap second; the same with an explicit "
           "leap_seconds in both directions; Delta-T stays within 3.5 s of 42.184 s + leap seconds for every month "
           "1972..2018 and jumps by < 1 s at every segment joint after -500 (kernel-evaluated on the rational model). "
+          "Outside the documented domain: leap_seconds for ANY numeric year/month (floats, months outside 1..12) is "
+          "characterised exactly (incl. the index wrap returning 27 and the IndexError); the local= paths are modelled with "
+          "Epoch.utc2local() as a parameter: local absent/False = the modelled constructor, local=True = utc=True + offset, "
+          "offset 0 = the utc path in both directions; get_date(local=False) behaves as local=True (counterexample theorem + "
+          "listed finding). "
           "The model is tied to /repo by running its binary64 and exact instantiations against the real code over the "
           "whole finite domain of the property already in the quick tier (every (year, month) 1950..2100 x 3 days x 3 "
           "times, every override 0..60, Delta-T for every month -2000..3000) plus the seconds around every leap-second "
           "insertion; the 1 ms read-back clause on binary64 is covered by these runs, not by a theorem."),
     note=("Trusted: Lean kernel, Mathlib, axioms propext/Classical.choice/Quot.sound; the hand-written model and its "
           "correspondence run; Spec/IERS.lean (the IERS list); idealisation binary64 -> Rat checked by (I) with the 1 ms "
-          "tolerance of the property. local=True / Epoch.utc2local() (wall clock) not modelled; int year and month only."),
+          "tolerance of the property. Epoch.utc2local() itself (wall clock) is not modelled: it is a parameter of the model and is replaced by a constant in the runs."),
     technique="Lean 4 proof (comparison lemmas + kernel evaluation of finite tables) + model/implementation correspondence check",
     ref='6 C10')
 
 TRUSTED = ['Spec/IERS.lean and the IERS list of this module (27 leap-second insertion dates, Bulletin C)',
            'stubs for CPython datetime.date used by get_doy / doy2date (validated against datetime by C16 and here)']
-ASSUMPTIONS = ['local=True / Epoch.utc2local() read the wall clock and are not modelled',
+ASSUMPTIONS = ['Epoch.utc2local() reads the wall clock: a parameter of the model, replaced by constants in the correspondence run',
                'year and month are Python ints; seconds < 60 (the constructor refuses 23:59:60)',
                'theorems are about exact rational arithmetic; binary64 effects are checked by testing to 1 ms']
 
@@ -191,6 +196,91 @@ def check_deltat(ctx, Epoch, y, m, klass):
         ctx.predicate('deltat_joint', ok, ['ym_dt', y, m], [a, out], klass)
 
 
+# ------------------------------------------------------------------ leap_seconds with any numeric arguments
+def leap_any_spec(year, month):
+    """Transcription of theorem C10.leap_seconds_any_arguments (exact rational arithmetic on the argument values):
+    what Epoch.leap_seconds returns for ANY numeric year / month, in terms of the IERS list."""
+    y, m = Fraction(year), Fraction(month)
+    x = y + m / 12
+    if x <= Fraction(3945, 2):
+        return 0
+    if x > 2017:
+        return 27
+    ly = y + (Fraction(1, 4) if m <= 6 else Fraction(3, 4))
+    if ly <= Fraction(3945, 2):
+        return 27                      # idx = 0: list_years[-1], the LAST entry of the table
+    if ly > 2017:
+        return 'E:Other'               # IndexError
+    return sum(1 for (a, b) in IERS if Fraction(a) + Fraction(b - 1, 12) < ly)
+
+
+def check_leap_any(ctx, Epoch, year, month, klass):
+    out = run_impl(lambda: Epoch.leap_seconds(year, month))
+    exp = leap_any_spec(year, month)
+    ctx.predicate('leap_seconds_any_arguments', out == (exp if isinstance(exp, str) else enc(exp)), ['ym_any', year, month],
+                  {'leap_seconds': out, 'theorem': exp}, klass)
+    ctx.case('leap_seconds_num', [year, month], out, q='exact', klass='leap_seconds_num/' + klass)
+
+
+# ------------------------------------------------------------------ local=: Epoch.utc2local() as a parameter
+class utc2local_is:
+    """Run a block with Epoch.utc2local() returning `off` (the wall clock is not modelled; the offset is a parameter).
+    Only the class attribute of the imported module is replaced, for the duration of the block."""
+
+    def __init__(self, Epoch, off):
+        self.Epoch, self.off = Epoch, off
+
+    def __enter__(self):
+        self.saved = self.Epoch.__dict__['utc2local']
+        off = self.off
+        self.Epoch.utc2local = staticmethod(lambda: off)
+
+    def __exit__(self, *a):
+        self.Epoch.utc2local = self.saved
+
+
+def kw_args3(utc, ls, loc, off):
+    return kw_args(utc, ls) + [0 if loc is None else (1 if loc else 2), off]
+
+
+def kwargs3(utc, ls, loc):
+    kw = kwargs_of(utc, ls)
+    if loc is not None:
+        kw['local'] = loc
+    return kw
+
+
+def check_local(ctx, Epoch, y, m, d, h, mi, s, off, klass):
+    args = [y, m, d, h, mi, s]
+    inp = ['local', y, m, d, h, mi, s, off]
+    with utc2local_is(Epoch, off):
+        for utc in (None, True, False):
+            for ls in (None, 35.0, 0):
+                for loc in (None, True, False):
+                    kw = kwargs3(utc, ls, loc)
+                    out = run_impl(lambda: Epoch(*args, **kw).jde())
+                    ctx.case('epoch_set_local', args + kw_args3(utc, ls, loc, off), out, q=('abs', 2e-9), klass='ctor_local')
+                    if out.startswith('f'):
+                        e = Epoch()
+                        e._jde = tok_float(out)
+                        back = run_impl(lambda: e.get_date(**kw))
+                        # 0h instants may sit on the other side of midnight in exact arithmetic: binary64 tie only
+                        ctx.case('get_date_local', [e._jde] + kw_args3(utc, ls, loc, off), back,
+                                 q=('abs', 2e-9) if (h, mi, s) != (0, 0, 0) else None, klass='get_date_local')
+        try:
+            e_tt = Epoch(*args)
+            e_lf = Epoch(*args, local=False)
+            ctx.predicate('local_false_is_absent_ctor', e_lf.jde() == e_tt.jde(), inp, [e_lf.jde(), e_tt.jde()], klass)
+            a, b = e_tt.get_date(local=False), e_tt.get_date()
+            ctx.predicate('local_false_is_absent_get_date', tuple(a) == tuple(b), inp, [list(a), list(b)], klass)
+            if off == 0.0:
+                e_l, e_u = Epoch(*args, local=True), Epoch(*args, utc=True)
+                ok = e_l.jde() == e_u.jde() and tuple(e_u.get_date(local=True)) == tuple(e_u.get_date(utc=True))
+                ctx.predicate('local_zero_offset_is_utc', ok, inp, [e_l.jde(), e_u.jde()], klass)
+        except ValueError:
+            pass                       # an invalid date: the tie above has compared the exception classes
+
+
 def leap_window_times(L):
     """UTC times (h, mi, s) in the last 75 s of a day, incl. the instant whose TT image is midnight."""
     delta = 42.184 + L
@@ -242,6 +332,28 @@ def generate(ctx, shard=0, nshards=1):
                     if yy >= -4712:
                         check_datetime(ctx, Epoch, yy, m, 1, 0, 0, 0, 'hot', exact_q=False)
                         check_datetime(ctx, Epoch, yy, m, civil_mlen(yy, m), 23, 59, 59, 'hot')
+        # leap_seconds with float / out-of-range arguments (theorem C10.leap_seconds_any_arguments)
+        for y in (1971, 1971.5, 1972, 1972.25, 1972.5, 1973, 1980.75, 1999, 2016, 2016.5, 2016.75, 2017, 2017.25, 2018, 1950, 0, -4712.5,
+                  9999, 123456.5):
+            for m in (-13, -6, -3, -1, 0, 0.5, 1, 1.5, 3, 6, 6.0, 6.5, 7, 9, 12, 12.5, 13, 15, 18, 19, 24, 25, 600):
+                check_leap_any(ctx, Epoch, y, m, 'grid')
+        for _ in range(ctx.n(3000, 30000)):
+            y = rng.choice([rng.randint(1965, 2025), rng.randint(1965, 2025) + rng.choice([0.25, 0.5, 0.75]), rng.randint(-5000, 10000),
+                            rng.uniform(1960, 2030)])
+            m = rng.choice([rng.randint(-30, 40), rng.randint(1, 12), rng.randint(-8, 24) * 0.5, rng.uniform(-20, 30)])
+            check_leap_any(ctx, Epoch, y, m, 'random')
+        # local=: Epoch.utc2local() as a parameter
+        for off in (0.0, 3600.0, -18000.0, 19800.0, 7200.0, -34200.0):
+            for (y, m, d, h, mi, s) in ((2000, 1, 1, 12, 0, 0), (2016, 12, 31, 23, 59, 30.5), (2017, 1, 1, 0, 0, 0), (1971, 12, 31, 23, 0, 0),
+                                        (1972, 1, 1, 0, 30, 0), (1985, 7, 1, 2, 0, 10.25), (2024, 2, 29, 23, 30, 0), (1600, 3, 1, 6, 0, 0),
+                                        (2000, 2, 30, 0, 0, 0)):
+                check_local(ctx, Epoch, y, m, d, h, mi, s, off, 'local')
+        for _ in range(ctx.n(150, 1500)):
+            y = rng.choice([rng.randint(1950, 2100), rng.randint(1583, 3000)])
+            m = rng.randint(1, 12)
+            d = rng.randint(1, civil_mlen(y, m))
+            off = rng.choice([0.0, 0.0, 3600.0 * rng.randint(-12, 14), 1800.0 * rng.randint(-24, 28), 60.0 * rng.randint(-720, 840)])
+            check_local(ctx, Epoch, y, m, d, rng.randint(0, 23), rng.randint(0, 59), rng.choice([0, 30, rng.random() * 60.0]), off, 'local_random')
         # malformed constructor input with kwargs: the model must raise what the code raises
         for args in ([2000, 1, 0, 0, 0, 0], [2000, 2, 30, 0, 0, 0], [2000, 1, 1, 24, 0, 0], [2000, 1, 1, 0, 60, 0],
                      [2016, 12, 31, 23, 59, 60], [-4713, 1, 1, 0, 0, 0], [2000, 13, 1, 0, 0, 0], [1999, 2, 29, 0, 0, 0]):
@@ -319,6 +431,10 @@ def replay(case):
         check_deltat(ctx, Epoch, inp[1], inp[2], 'replay')
     elif kind == 'table':
         generate_table_only(ctx)
+    elif kind == 'ym_any':
+        check_leap_any(ctx, Epoch, inp[1], inp[2], 'replay')
+    elif kind == 'local':
+        check_local(ctx, Epoch, *inp[1:8], 'replay')
     only = case.get('predicate')
     fails = [f for f in ctx.pred_fail if f['predicate'] == only] or ctx.pred_fail
     return (len(fails) > 0, fails)
